@@ -167,6 +167,30 @@ def check_sac(ctx, idx):
             ctx.phi_fail("actor_unchanged_off_frequency", case, key="sac:actor-gating")
         if len(outs[0]) != 8:
             ctx.phi_fail("targets_not_returned", case, key="sac:outputs")
+        # the same with policy_frequency = 1 (actor updated on every iteration): two chained updates, the
+        # critics must be exactly those of two chained updates during which the actor was never updated
+        algo1 = SAC(buffer_size=B, batch_size=B, gamma=gamma, num_envs=1, policy_frequency=1, autotune=False,
+                    q_width_size=4, q_depth=1)
+
+        def chain(al, its):
+            pol, os_, c1, c2, qo, la, ao = policy, opt_state, qf1, qf2, q_opt, log_alpha, a_opt
+            for it in its:
+                o = al.sac_train(pol, os_, buf, c1, c2, qf1t, qf2t, qo, la, ao, jnp.asarray(-1.0), jnp.asarray(it),
+                                 key=train_key)
+                pol, os_, c1, c2, qo, la, ao = o[0], o[1], o[2], o[3], o[4], o[5], o[6]
+            return c1, c2
+
+        try:
+            with_actor = jax.tree.leaves(chain(algo1, (0, 1)))
+            without_actor = jax.tree.leaves(chain(algo, (1, 3)))
+            ctx.count("sac_train:policy_frequency=1")
+            if not all(ctx.close(np.asarray(x, np.float64), np.asarray(y_, np.float64), 4.0)
+                       for x, y_ in zip(with_actor, without_actor)):
+                ctx.phi_fail("actor_loss_does_not_move_critics",
+                             {**case, "policy_frequency": 1, "note": "critics after two updates differ from the critics "
+                              "of two updates without actor steps"}, key="sac:critics-moved-pf1")
+        except (IndexError, TypeError) as e:        # return structure of sac_train not as assumed: skip, do not alarm
+            ctx.note(f"sac_train chaining skipped: {type(e).__name__}")
     # (c) actor loss value
     keys = jr.split(jr.key(0), B)
     al = SAC.actor_loss(policy, buf, qf1, qf2, jnp.asarray(alpha), keys)
